@@ -244,6 +244,26 @@ class ParseModel(object):
             raise AnalysisError('%s: score matrices over the tag/dep parameters not found' % H)
         self.agenda = self._one_local(lambda d: 'priority_queue<parsing::cell_item' in (d.type or '') or (d.dtype or '').startswith('std::priority_queue<parsing::cell_item'),
                                       'agenda (priority_queue<cell_item>)')
+        per_word = [n for n, d in locals_.items() if 'vector<std::priority_queue<' in (d.type or '') or 'vector<std::priority_queue<' in (d.dtype or '')]
+        if not per_word:
+            # one candidate queue for all words, declared at function scope and never emptied between words
+            shared = [n for n, d in locals_.items() if (d.dtype or d.type or '').replace(' ', '').startswith('std::priority_queue<')
+                      and 'cell_item' not in (d.dtype or d.type or '')]
+            if len(shared) == 1:
+                q = shared[0]
+                emptied = False
+                for n_ in ps.walk():
+                    if n_.kind in ('BinaryOperator', 'CXXOperatorCallExpr') and any(x.kind == 'DeclRefExpr' and x.ref == q for x in (n_.kids[:2] if n_.kids else [])) \
+                            and (n_.op == '=' or (n_.kids and strip(n_.kids[0]).ref == 'operator=')):
+                        emptied = True
+                    if n_.kind == 'CXXMemberCallExpr' and strip(n_.kids[0]).name in ('swap', 'clear') and strip(n_.kids[0]).kids and strip(strip(n_.kids[0]).kids[0]).ref == q:
+                        emptied = True
+                if not emptied:
+                    from .core import StructuralViolation
+                    raise StructuralViolation('R-model', '%s:%s parse_sentence' % (H, locals_[q].line), 'scored:shared-queue',
+                                              'the candidate tags of all words go through the one queue `%s`, which is never emptied between words: what a word left behind '
+                                              '(tags beyond pruning_size or below its threshold) competes with the next word\'s own tags and can be seeded as that word\'s '
+                                              'supertag with the other word\'s score' % q)
         self.scored = self._one_local(lambda d: 'vector<std::priority_queue<' in (d.type or '') or 'vector<std::priority_queue<' in (d.dtype or ''),
                                       'per-word candidate queues')
         # desugared type of the candidate queues (aliases resolved): the comparator decides what top() means
